@@ -51,6 +51,13 @@ def case_program(rng, greedy):
         open_ = any(gen.is_open(gen.pat_sem(p)) for p in preds)
         if greedy:
             body = [N("yield", code=ycodes[i])]
+            r_ = rng.random()
+            if r_ < 0.2:
+                body.insert(0, N("assign", var="m", e=N("num", v=i + 1, text=str(i + 1))))
+            elif r_ < 0.4:
+                # a marker that is not timing-strict, alone in its clause: only the clause that is selected may leave it
+                # (known finding K9 when a shorter, losing one does)
+                body = [N("assign", var="m", e=N("num", v=i + 1, text=str(i + 1)))]
         else:
             style = rng.random()
             if open_:
@@ -82,6 +89,32 @@ def case_program(rng, greedy):
     return N("prog", outs=outs, hooks=hooks, fcodes=fcodes, ycodes=ycodes, macros=[], body=body, args=args)
 
 
+def prefix_loop_shapes(rng, n):
+    """lexer loops whose greedy case has a clause that is a proper prefix of another one (same clause or a different one), with
+    action-only / yielding / empty bodies: the body's final state can go on matching when the iteration is already complete"""
+    out = []
+    for _ in range(n):
+        w = bytes(rng.choice(b"abc") for _ in range(rng.choice([1, 1, 2])))
+        v = bytes(rng.choice(b"abc") for _ in range(rng.choice([1, 2])))
+        lit = lambda b: N("lit", bs=b, form="s")
+        bodies = [lambda i: [N("assign", var="m", e=N("num", v=i + 1, text=str(i + 1)))], lambda i: [], lambda i: [N("yield", code="Y%d" % i)],
+                  lambda i: [N("assign", var="m", e=N("num", v=i + 1, text=str(i + 1))), N("yield", code="Y%d" % i)]]
+        other = bytes([rng.choice([c for c in b"abcd" if c != w[0]])]) + bytes(rng.choice(b"ab") for _ in range(rng.choice([0, 1])))
+        if rng.random() < 0.5:
+            clauses = [N("clause", preds=[lit(w + v), lit(w)], body=rng.choice(bodies[:2])(0), prio=None)]
+        else:
+            clauses = [N("clause", preds=[lit(w)], body=rng.choice(bodies)(0), prio=rng.choice([None, 1])),
+                       N("clause", preds=[lit(w + v)], body=rng.choice(bodies)(1), prio=rng.choice([None, 2]))]
+        clauses.append(N("clause", preds=[lit(other)], body=rng.choice(bodies)(2), prio=None))
+        if rng.random() < 0.3:
+            clauses.append(N("clause", preds=["else"], body=[N("yield", code="Y3"), N("match", p=N("rx", tree=("any",), binary=False))], prio=None))
+        rng.shuffle(clauses)
+        case = N("case", clauses=clauses, greedy=True)
+        outs = [N("out", name="m", typ="int", signed=None, width=None, default=0)]
+        out.append(N("prog", outs=outs, hooks=[], fcodes=[], ycodes=["Y0", "Y1", "Y2", "Y3"], macros=[], body=[N("loop", label=None, body=[case])], args=["-fyield-support"]))
+    return out
+
+
 def run(ctx: Ctx):
     rng = ctx.rng
     quick = ctx.quick
@@ -107,6 +140,7 @@ def run(ctx: Ctx):
         else:
             k = (r.exc_type or r.status) + ": " + (r.exc_msg or "")[:50].split("\n")[0]
             rejected[k] = rejected.get(k, 0) + 1
+    c01.add_shapes(ctx, rng, pool, prefix_loop_shapes(rng, 16 if quick else 200), "prefix_loop_shapes_accepted")
     ctx.cov.update({"case_programs_generated": tried, "case_programs_accepted": len(pool)})
     ctx.extra["accepted_shapes"] = kinds
     ctx.extra["rejections"] = rejected
